@@ -144,6 +144,42 @@ def parseCond (toks : List Tok) : Option Expr :=
   | some (e, []) => some e
   | _ => none
 
+/-- the rest after the parenthesis group whose opening `(` was just consumed -/
+def dropGroup : List Tok → Nat → List Tok
+  | [], _ => []
+  | t :: r, d =>
+    if t.isOp "(" then dropGroup r (d + 1)
+    else if t.isOp ")" then (if d = 0 then r else dropGroup r (d - 1))
+    else dropGroup r d
+
+/-- expressionParser turns `operand ( ... )` into a callNode, for which canEvaluate() is false: lineIsTrue then
+    reports "Unable to evaluate expression" (a COUNTED error, unlike a malformed expression).  Remove the
+    argument groups of such calls and say whether there was one. -/
+def stripCalls : Nat → List Tok → Bool → List Tok × Bool
+  | 0, l, _ => (l, false)
+  | _ + 1, [], _ => ([], false)
+  | f + 1, t :: r, prevOperand =>
+    if prevOperand && t.isOp "(" then
+      let (l, _) := stripCalls f (dropGroup r 0) true
+      (l, true)
+    else
+      let (l, c) := stripCalls f r (t.kind = .num || t.kind = .ident || t.isOp ")")
+      (t :: l, c)
+
+/-- what lineIsTrue makes of the expanded tokens: an expression, a malformed expression (reported by the
+    parser, not counted in pp.errors) or an expression that cannot be evaluated (counted) -/
+inductive CondParse where
+  | expr (e : Expr)
+  | malformed
+  | unevaluable
+
+def parseCondOcca (toks : List Tok) : CondParse :=
+  let toks := toks.filter (fun t => !t.isNl)
+  let (stripped, hadCall) := stripCalls (toks.length + 1) toks false
+  match parseCond stripped with
+  | none => .malformed
+  | some e => if hadCall then .unevaluable else .expr e
+
 /-! ### a translation unit, line by line (OCCA) -/
 
 inductive SrcLine where
@@ -177,7 +213,11 @@ def US.kill (u : US) (why : String) : US := { u with dead := some why }
 /-- expand + parse + evaluate the condition of a `#if` / `#elif` line -/
 def evalCondLine (cfg : Cfg) (fuel : Nat) (u : US) (toks : List Tok) : US × CR :=
   match expandLine cfg.vaCommas fuel u.pp toks with
-  | .ok (etoks, pp') => ({ u with pp := pp' }, evalCR cfg.shortCircuit (parseCond etoks))
+  | .ok (etoks, pp') =>
+    (match parseCondOcca etoks with
+     | .expr e => ({ u with pp := pp' }, evalCR cfg.shortCircuit (some e))
+     | .malformed => ({ u with pp := pp' }, .err)
+     | .unevaluable => ({ u with pp := { pp' with errors := pp'.errors + 1 } }, .err))
   | .outOfFuel => (u.kill "HANG", .trap)
   | .trap => (u.kill "TRAP", .trap)
 
